@@ -302,7 +302,32 @@ def check_complex(ctx, case):
         ctx.nontrivial(('cplx', fmt, mode, elem, route, cont, tuple(vs)))
     ctx.sample(case, nontriv)
     sig = 'complex/%s/%s/%s' % (elem, cont, route)
-    if route == 'real-into-complex':
+    if route.startswith('from-fxp'):
+        # the complex values are held exactly by another object (finer format) and converted into the target by a conversion route
+        how = route.split(':')[1]
+
+        def do_conv():
+            F = C.Fxp()
+            src = F(np.array([complex(float(a), float(b)) for a, b in vs]), True, 64, f + 8 if f + 8 > 0 else 8)
+            dst = F(None, s, w, f, rounding=mode[0], overflow=mode[1])
+            if how == 'call':
+                dst(src)
+            elif how == 'set_val':
+                dst.set_val(src)
+            elif how == 'equal':
+                dst.equal(src)
+            elif how == 'like-kw':
+                dst = F(src, like=dst)
+            elif how == 'like-method':
+                dst = src.like(dst)
+            else:
+                dst = F(np.zeros(len(vs)), s, w, f, rounding=mode[0], overflow=mode[1])
+                dst[:] = src
+            return dst, None
+        if not all(M.is_double(p) and abs(p) < 2 ** 40 and (p * 2 ** (f + 8 if f + 8 > 0 else 8)).denominator == 1 for v in vs for p in v):
+            return
+        ok, res = ctx.guard(case, do_conv, sig_prefix=sig + '/')
+    elif route == 'real-into-complex':
         # one real value written by index into an object that holds complex values: the others stay complex
         if len(vs) < 2:
             return
@@ -510,7 +535,7 @@ def st_complex_case(draw):
     n = draw(st.integers(1, 4))
     x4s = [[C.clamp_sig_bits(draw(C.st_x4(fmt, limit_bits=max(lim, 2))), 53) for _ in range(2)] for _ in range(n)]
     return {'check': 'complex', 'fmt': list(fmt), 'mode': list(draw(C.st_modes())), 'elem': draw(st.sampled_from(CPLX_ELEMS)),
-            'route': draw(st.sampled_from(('ctor', 'call', 'set_val', 'setitem', 'setitem-into-real', 'real-into-complex'))), 'cont': draw(st.sampled_from(('scalar', '1d', 'list'))),
+            'route': draw(st.sampled_from(('ctor', 'call', 'set_val', 'setitem', 'setitem-into-real', 'real-into-complex', 'from-fxp:call', 'from-fxp:set_val', 'from-fxp:equal', 'from-fxp:like-kw', 'from-fxp:like-method', 'from-fxp:slice'))), 'cont': draw(st.sampled_from(('scalar', '1d', 'list'))),
             'x4s': x4s}
 
 
